@@ -2,6 +2,7 @@ package rules
 
 import (
 	"fmt"
+	"go/constant"
 	"go/token"
 	"go/types"
 	"sort"
@@ -368,97 +369,178 @@ func answerCodes(g *ssa.Function) []ansCode {
 }
 
 // c11HostAddresses: Host-IP-Address (257) added once per element of phi(cfg.HostIPAddresses, getLocalAddresses(c)).
-func (c *Ctx) c11HostAddresses(b *ssa.Function) {
-	r := c.R
-	key := fname(b) + ":host-ip-addresses"
-	loops := flow.Loops(b)
-	good, why := false, "the CEA does not carry one Host-IP-Address per configured / local address"
-	for _, ci := range flow.CallInstrs(b) {
-		if !flow.IsCallTo(ci, pkgDiam, "Message", "NewAVP") {
-			continue
-		}
-		if k, ok := flow.ConstInt(ci.Common().Args[1]); !ok || k != 257 {
-			continue
-		}
-		u, ok := flow.Peel(ci.Common().Args[4]).(*ssa.UnOp)
-		if !ok {
-			continue
-		}
-		ia, ok := u.X.(*ssa.IndexAddr)
-		if !ok || flow.InnermostLoop(loops, ci) == nil {
-			continue
-		}
-		// source: phi(configured, local)
-		srcs := map[string]bool{}
-		var visit func(v ssa.Value, d int)
-		visit = func(v ssa.Value, d int) {
-			if d > 4 {
-				return
+// builderFamily: the builder b and the package-local helpers it hands a *diam.Message to (they add AVPs to
+// the message on b's behalf), two levels deep.
+func (c *Ctx) builderFamily(b *ssa.Function) []*ssa.Function {
+	fam := []*ssa.Function{b}
+	seen := map[*ssa.Function]bool{b: true}
+	for i := 0; i < len(fam) && i < 8; i++ {
+		for _, ci := range flow.CallInstrs(fam[i]) {
+			h := flow.StaticCallee(ci)
+			if h == nil || h.Blocks == nil || seen[h] || pkgOf(h) == nil || pkgOf(h).Path() != pkgSM {
+				continue
 			}
-			switch x := v.(type) {
-			case *ssa.Phi:
-				for _, e := range x.Edges {
-					visit(e, d+1)
-				}
-			case *ssa.Extract:
-				if call, ok := x.Tuple.(*ssa.Call); ok {
-					visit(call, d)
-				}
-			case *ssa.Call:
-				g := flow.StaticCallee(x)
-				if g == nil {
-					srcs["other:dynamic-call"] = true
-					return
-				}
-				// a package-local helper choosing between configured and local addresses: look inside
-				if pkgOf(g) != nil && pkgOf(g).Path() == pkgSM && g.Signature.Recv() != nil {
-					for _, rv := range flow.ReturnValues(g, 0) {
-						if !flow.IsNilConst(rv) {
-							visit(rv, d+1)
-						}
-					}
-					return
-				}
-				for _, a := range x.Call.Args {
-					if flow.TypeIs(a.Type(), pkgDiam, "Conn") {
-						srcs["local:"+g.Name()] = true
-					}
-				}
-			case *ssa.UnOp:
-				if tn, fld, _, ok := flow.FieldOf(x); ok {
-					if tn == "Settings" {
-						srcs["settings:"+fld] = true
-					} else {
-						srcs["other:"+tn+"."+fld] = true
-					}
+			takesMsg := false
+			for _, a := range ci.Common().Args {
+				if isMsgPtr(a.Type()) {
+					takesMsg = true
 				}
 			}
-		}
-		visit(ia.X, 0)
-		hasCfg, hasLocal := false, false
-		other := ""
-		for k := range srcs {
-			if strings.HasPrefix(k, "other:") {
-				hasCfg = false
-				other = fmt.Sprintf("Host-IP-Address values can come from %s (state kept across connections): a CEA on one connection can carry another connection's local address", strings.TrimPrefix(k, "other:"))
-				srcs = map[string]bool{}
-				break
+			if takesMsg {
+				seen[h] = true
+				fam = append(fam, h)
 			}
 		}
-		for k := range srcs {
-			if strings.HasPrefix(k, "settings:HostIPAddress") {
-				hasCfg = true
+	}
+	return fam
+}
+
+// addrSources classifies where a list of host addresses comes from: "settings:<field>", "local:<fn>" (computed
+// from the connection), "other:<what>" (anything kept elsewhere).
+func (c *Ctx) addrSources(v ssa.Value, srcs map[string]bool, d int, seen map[ssa.Value]bool) {
+	if v == nil || d > 10 || seen[v] {
+		return
+	}
+	seen[v] = true
+	switch x := v.(type) {
+	case *ssa.Phi:
+		for _, e := range x.Edges {
+			if !flow.IsNilConst(e) {
+				c.addrSources(e, srcs, d+1, seen)
+			}
+		}
+	case *ssa.Extract:
+		if call, ok := x.Tuple.(*ssa.Call); ok {
+			c.addrCall(call, x.Index, srcs, d, seen)
+		}
+	case *ssa.Call:
+		c.addrCall(x, 0, srcs, d, seen)
+	case *ssa.Parameter:
+		sites := c.librarySites(x.Parent())
+		if len(sites) == 0 {
+			srcs["other:parameter of "+x.Parent().Name()] = true
+		}
+		for _, cs := range sites {
+			if i := paramIndex(x.Parent(), x); i < len(cs.Common().Args) {
+				c.addrSources(cs.Common().Args[i], srcs, d+1, seen)
+			}
+		}
+	case *ssa.UnOp:
+		if tn, fld, _, ok := flow.FieldOf(x); ok {
+			if tn == "Settings" {
+				srcs["settings:"+fld] = true
+			} else {
+				srcs["other:"+tn+"."+fld] = true
+			}
+			return
+		}
+		if al, ok := x.X.(*ssa.Alloc); ok {
+			for _, ref := range flow.Referrers(al) {
+				if st, ok := ref.(*ssa.Store); ok && st.Addr == ssa.Value(al) && !flow.IsNilConst(st.Val) {
+					c.addrSources(st.Val, srcs, d+1, seen)
+				}
+			}
+		}
+	case *ssa.Slice:
+		c.addrSources(x.X, srcs, d+1, seen)
+	case *ssa.ChangeType:
+		c.addrSources(x.X, srcs, d+1, seen)
+	}
+}
+
+func (c *Ctx) addrCall(call *ssa.Call, idx int, srcs map[string]bool, d int, seen map[ssa.Value]bool) {
+	g := flow.StaticCallee(call)
+	if g == nil {
+		srcs["other:dynamic-call"] = true
+		return
+	}
+	takesConn := false
+	for _, a := range call.Call.Args {
+		if flow.TypeIs(a.Type(), pkgDiam, "Conn") {
+			takesConn = true
+		}
+	}
+	// a package-local helper: look at what it can return
+	if g.Blocks != nil && pkgOf(g) != nil && pkgOf(g).Path() == pkgSM && d < 8 {
+		sub := map[string]bool{}
+		for _, rv := range flow.ReturnValues(g, idx) {
+			if !flow.IsNilConst(rv) {
+				c.addrSources(rv, sub, d+1, seen)
+			}
+		}
+		hasSettings, hasLocal := false, false
+		for k := range sub {
+			if strings.HasPrefix(k, "settings:") {
+				hasSettings = true
 			}
 			if strings.HasPrefix(k, "local:") {
 				hasLocal = true
 			}
 		}
-		if hasCfg && hasLocal {
-			good = true
-		} else {
-			why = fmt.Sprintf("Host-IP-Address values come from %v, expected the configured addresses or else the connection's local addresses", keys(srcs))
-			if other != "" {
-				why = other
+		// a helper that consults the settings or delegates to the local-address function: take its sources;
+		// one that computes addresses from the connection alone is the local-address function itself
+		if hasSettings || hasLocal || !takesConn {
+			for k := range sub {
+				srcs[k] = true
+			}
+			if len(sub) > 0 {
+				return
+			}
+		}
+	}
+	if takesConn {
+		srcs["local:"+g.Name()] = true
+		return
+	}
+	srcs["other:result of "+g.Name()] = true
+}
+
+func (c *Ctx) c11HostAddresses(b *ssa.Function) {
+	r := c.R
+	key := fname(b) + ":host-ip-addresses"
+	good, why := false, "the CEA does not carry one Host-IP-Address per configured / local address"
+	for _, f := range c.builderFamily(b) {
+		loops := flow.Loops(f)
+		for _, ci := range flow.CallInstrs(f) {
+			if !flow.IsCallTo(ci, pkgDiam, "Message", "NewAVP") {
+				continue
+			}
+			if k, ok := flow.ConstInt(ci.Common().Args[1]); !ok || k != 257 {
+				continue
+			}
+			u, ok := flow.Peel(ci.Common().Args[4]).(*ssa.UnOp)
+			if !ok {
+				continue
+			}
+			ia, ok := u.X.(*ssa.IndexAddr)
+			if !ok || flow.InnermostLoop(loops, ci) == nil {
+				continue
+			}
+			// source: phi(configured, local)
+			srcs := map[string]bool{}
+			c.addrSources(ia.X, srcs, 0, map[ssa.Value]bool{})
+			hasCfg, hasLocal := false, false
+			other := ""
+			for k := range srcs {
+				if strings.HasPrefix(k, "other:") {
+					other = fmt.Sprintf("Host-IP-Address values can come from %s (state kept across connections): a CEA on one connection can carry another connection's local address", strings.TrimPrefix(k, "other:"))
+				}
+			}
+			for k := range srcs {
+				if strings.HasPrefix(k, "settings:HostIPAddress") {
+					hasCfg = true
+				}
+				if strings.HasPrefix(k, "local:") {
+					hasLocal = true
+				}
+			}
+			if hasCfg && hasLocal && other == "" {
+				good = true
+			} else {
+				why = fmt.Sprintf("Host-IP-Address values come from %v, expected the configured addresses or else the connection's local addresses", keys(srcs))
+				if other != "" {
+					why = other
+				}
 			}
 		}
 	}
@@ -469,30 +551,44 @@ func (c *Ctx) c11HostAddresses(b *ssa.Function) {
 func (c *Ctx) c11Apps(b *ssa.Function) {
 	r := c.R
 	key := fname(b) + ":advertises-supported-apps"
-	loops := flow.Loops(b)
-	for _, l := range loops {
-		// loop ranging over StateMachine.supportedApps
-		ranges := false
-		for blk := range l.Blocks {
-			for _, in := range blk.Instrs {
-				if ia, ok := in.(*ssa.IndexAddr); ok {
-					if tn, fld, _, ok := flow.FieldOf(ia.X); ok && tn == "StateMachine" && fld == "supportedApps" {
-						ranges = true
+	memo := map[*ssa.Function]int{}
+	isAddCall := func(ci ssa.CallInstruction) bool {
+		return flow.IsCallTo(ci, pkgDiam, "Message", "NewAVP") || flow.IsCallTo(ci, pkgDiam, "Message", "AddAVP")
+	}
+	for _, f := range c.builderFamily(b) {
+		for _, l := range flow.Loops(f) {
+			// loop ranging over StateMachine.supportedApps
+			ranges := false
+			for blk := range l.Blocks {
+				for _, in := range blk.Instrs {
+					if ia, ok := in.(*ssa.IndexAddr); ok {
+						if tn, fld, _, ok := flow.FieldOf(ia.X); ok && tn == "StateMachine" && fld == "supportedApps" {
+							ranges = true
+						}
 					}
 				}
 			}
+			if !ranges {
+				continue
+			}
+			l := l
+			isAdd := func(in ssa.Instruction) bool {
+				ci, ok := in.(ssa.CallInstruction)
+				if !ok || !l.Blocks[in.Block()] {
+					return false
+				}
+				if isAddCall(ci) {
+					return true
+				}
+				// a helper that adds the application's AVP on every path
+				h := flow.StaticCallee(ci)
+				return h != nil && h.Blocks != nil && pkgOf(h) != nil && pkgOf(h).Path() == pkgSM && c.mustPass(h, isAddCall, memo)
+			}
+			head := l.Head.Instrs[0]
+			p := flow.PathAvoiding(f, l.Head.Instrs[len(l.Head.Instrs)-1], func(x ssa.Instruction) bool { return x == head }, func(x ssa.Instruction) bool { return isAdd(x) || !l.Blocks[x.Block()] })
+			r.Check(p == nil, "R4", key, c.pos(head), "every iteration over the supported applications adds an application AVP to the success CEA", "an iteration over the locally supported applications can add nothing: the success CEA does not advertise every shared application", c.witness(p)...)
+			return
 		}
-		if !ranges {
-			continue
-		}
-		isAdd := func(in ssa.Instruction) bool {
-			ci, ok := in.(ssa.CallInstruction)
-			return ok && (flow.IsCallTo(ci, pkgDiam, "Message", "NewAVP") || flow.IsCallTo(ci, pkgDiam, "Message", "AddAVP")) && l.Blocks[in.Block()]
-		}
-		head := l.Head.Instrs[0]
-		p := flow.PathAvoiding(b, l.Head.Instrs[len(l.Head.Instrs)-1], func(x ssa.Instruction) bool { return x == head }, func(x ssa.Instruction) bool { return isAdd(x) || !l.Blocks[x.Block()] })
-		r.Check(p == nil, "R4", key, c.pos(head), "every iteration over the supported applications adds an application AVP to the success CEA", "an iteration over the locally supported applications can add nothing: the success CEA does not advertise every shared application", c.witness(p)...)
-		return
 	}
 	r.Fail("R4", key, c.fpos(b), "the success CEA has no loop over the locally supported applications: it advertises none of them")
 }
@@ -536,8 +632,22 @@ func (c *Ctx) c11Causes(parse *ssa.Call) {
 			switch gl.Name() {
 			case "ErrNoCommonSecurity":
 				hasPresent, hasNonZero := false, false
+				var rels []rel
 				for _, g := range flow.Guards(ret) {
-					rl, ok := condRel(g.If.Cond, g.Taken)
+					if rl, ok := condRel(g.If.Cond, g.Taken); ok {
+						rels = append(rels, rl)
+						continue
+					}
+					// a boolean predicate of the same package on its true edge: what it returns true under
+					cond, neg := flow.Cond(g.If.Cond, g.Taken)
+					if call, isCall := cond.(*ssa.Call); isCall && !neg {
+						if h := flow.StaticCallee(call); h != nil && h.Blocks != nil && pkgOf(h) != nil && pkgOf(h).Path() == pkgSMParser {
+							rels = append(rels, trueRels(h)...)
+						}
+					}
+				}
+				for _, rl := range rels {
+					ok := true
 					if !ok {
 						continue
 					}
@@ -731,8 +841,19 @@ func (c *Ctx) acceptSkeleton(rule, typ string, wantSuccessCode bool) {
 		}
 		steps = append(steps, call)
 	}
-	if len(steps) < 3 {
-		r.Fail(rule, fname(f)+":validation-steps", c.fpos(f), fmt.Sprintf("smparser.%s.Parse performs %d error-returning validation steps, expected at least unmarshal, mandatory-AVP check and application check", typ, len(steps)))
+	// the two steps that cannot be written inline: unmarshalling the message and checking the applications
+	hasUnm, hasApp := false, false
+	for _, st := range steps {
+		g := flow.StaticCallee(st)
+		if g.Name() == "Unmarshal" {
+			hasUnm = true
+		}
+		if flow.RecvTypeName(g.Signature) == "Application" {
+			hasApp = true
+		}
+	}
+	if !hasUnm || !hasApp {
+		r.Fail(rule, fname(f)+":validation-steps", c.fpos(f), fmt.Sprintf("smparser.%s.Parse lacks a validation step (unmarshal: %v, application check: %v)", typ, hasUnm, hasApp))
 	}
 	nAcc := 0
 	flow.Instrs(f, func(in ssa.Instruction) {
@@ -990,4 +1111,35 @@ func (c *Ctx) anyApplicationSuffices(rule string) {
 	if n == 0 {
 		r.Trivial(rule, "smparser.Application:scan-all", "-", "the validator is not applied in a loop")
 	}
+}
+
+// trueRels: the relations that hold whenever the boolean function h returns true — the guards of its
+// "return true" / "return <comparison>" statements and the comparison itself (conjunctions only: a function with
+// several ways to return true yields nothing).
+func trueRels(h *ssa.Function) []rel {
+	var out []rel
+	n := 0
+	flow.Instrs(h, func(in ssa.Instruction) {
+		ret, ok := in.(*ssa.Return)
+		if !ok || len(ret.Results) != 1 {
+			return
+		}
+		v := ret.Results[0]
+		if k, isK := v.(*ssa.Const); isK && k.Value != nil && k.Value.Kind() == constant.Bool && !constant.BoolVal(k.Value) {
+			return // return false
+		}
+		n++
+		for _, g := range flow.Guards(ret) {
+			if rl, ok := condRel(g.If.Cond, g.Taken); ok {
+				out = append(out, rl)
+			}
+		}
+		if rl, ok := condRel(v, true); ok {
+			out = append(out, rl)
+		}
+	})
+	if n != 1 {
+		return nil
+	}
+	return out
 }
